@@ -54,8 +54,6 @@ RECURSIVE SortedSeq(_)
 SortedSeq(S) == IF S = {} THEN <<>> ELSE LET m == Min(S) IN <<m>> \o SortedSeq(S \ {m})
 RECURSIVE Rev(_)
 Rev(s) == IF s = <<>> THEN <<>> ELSE Append(Rev(Tail(s)), Head(s))
-RECURSIVE Pow2(_)
-Pow2(k) == IF k = 0 THEN 1 ELSE 2 * Pow2(k - 1)
 
 ---------------------------------------------------------------------------------
 (* the dependency graph of a system, from its name sets *)
@@ -68,7 +66,8 @@ RECURSIVE Closure(_, _)
 Closure(R, k) == IF k = 0 THEN R ELSE LET C == Closure(R, k - 1) IN C \cup Comp(C, R)
 Reach(g) == Closure(EdgeRel(g), g.n)            \* <<i,j>>: a non-empty path from i to j
 Mutual(T, i, j) == i = j \/ (<<i, j>> \in T /\ <<j, i>> \in T)
-SCCs(g) == LET T == Reach(g) IN {{j \in Pos(g) : Mutual(T, i, j)} : i \in Pos(g)}
+SCCsOf(g) == LET T == Reach(g) IN {{j \in Pos(g) : Mutual(T, i, j)} : i \in Pos(g)}
+SCCs(g) == g.sccs               \* the constructors store SCCsOf(g) in the system (computed once)
 GroupEdge(g, C, D) == \E i \in C, j \in D : Edge(g, i, j)
 
 (* ---- the relation a reported execution sequence must satisfy.            *)
@@ -111,16 +110,17 @@ Names(g) == GIn(g, Pos(g)) \cup GOut(g, Pos(g))
 Prod(g, v) == {p \in Pos(g) : v \in g.outs[p]}
 Consistent(g) == \A v \in Names(g) : Cardinality(Prod(g, v)) <= 1
 FreeNames(g) == {v \in Names(g) : Prod(g, v) = {}}
+InSum(g, p, val) == Sum(g.ins[p], [k \in g.ins[p] |-> g.w[p][k] * val[k]])
 RunDisc(g, p, val) ==           \* outputs of discipline p executed on the data val
-  LET s == Sum(g.ins[p], [k \in g.ins[p] |-> g.w[p][k] * val[k]])
-  IN [v \in g.outs[p] |-> s + g.c[p][v]]
+  LET s == InSum(g, p, val) IN [v \in g.outs[p] |-> s + g.c[p][v]]
 Step(g, val) ==                 \* every discipline executed at once on val
-  [v \in Names(g) |-> IF Prod(g, v) = {} THEN val[v]
-                      ELSE RunDisc(g, CHOOSE p \in Prod(g, v) : TRUE, val)[v]]
+  LET S == [p \in Pos(g) |-> InSum(g, p, val)]
+  IN [v \in DOMAIN val |-> IF g.prod[v] = {} THEN val[v]
+                           ELSE LET p == CHOOSE p \in g.prod[v] : TRUE IN S[p] + g.c[p][v]]
 RECURSIVE Iter(_, _, _)
 Iter(g, val, k) == IF k = 0 THEN val ELSE Iter(g, Step(g, val), k - 1)
 Mono(g) == Iter(g, g.x0, g.n + 1)
-OtherGuess(g) == [v \in Names(g) |-> IF v \in FreeNames(g) THEN g.x0[v] ELSE 7]
+OtherGuess(g) == [v \in DOMAIN g.x0 |-> IF g.prod[v] = {} THEN g.x0[v] ELSE 7]
 
 (* sequential composition (MDOChain._execute): data.update(d.execute(data)) *)
 Update(val, out) == [v \in DOMAIN val |-> IF v \in DOMAIN out THEN out[v] ELSE val[v]]
@@ -183,60 +183,67 @@ Flatten(seq) == LET RECURSIVE F(_)
 
 ---------------------------------------------------------------------------------
 (* instance constructors *)
-Weights(b) ==                   \* 1 everywhere except on the edges that close a cycle
-  LET T == Reach(b) IN
-  [p \in Pos(b) |-> [v \in b.ins[p] |->
-      IF \E q \in Prod(b, v) : Mutual(T, q, p) /\ ~(b.id[q] < b.id[p]) THEN 0 ELSE 1]]
-
-V(i, j) == "v" \o ToString(i) \o "_" \o ToString(j)
-X(i) == "x" \o ToString(i)
-Y(i) == "y" \o ToString(i)
-InstE(n, adj, order, priv, dup) ==
-  LET insOf(d) == {V(k, d) : k \in {kk \in 1..n : <<kk, d>> \in adj}} \cup (IF priv THEN {X(d)} ELSE {})
-      outsOf(d) == {V(d, j) : j \in {jj \in 1..n : <<d, jj>> \in adj}} \cup (IF priv THEN {Y(d)} ELSE {})
-      cOf(d) == [v \in outsOf(d) |-> IF v = Y(d) THEN 10 * d
-                                     ELSE 10 * d + (CHOOSE j \in 1..n : v = V(d, j))]
-      b == [n |-> n, id |-> order,
-            name |-> [p \in 1..n |-> IF dup THEN "D" ELSE "D" \o ToString(order[p])],
-            ins |-> [p \in 1..n |-> insOf(order[p])],
-            outs |-> [p \in 1..n |-> outsOf(order[p])]]
+(* b: [n, id, name, ins, outs]; cst[v], free[v]: integer constants attached to the names.          *)
+(* Numeric layer: weight 1 everywhere except on the edges that close a cycle (inside a strongly    *)
+(* connected component data flows numerically only from the lower to the higher id; a self-loop    *)
+(* has weight 0); out = sum + 10*id + cst[v]; free inputs default to free[v], couplings to 0.      *)
+Complete(b, cst, free) ==
+  LET T == Reach(b)
       names == Names(b)
+      prod == [v \in names |-> Prod(b, v)]
   IN [n |-> b.n, id |-> b.id, name |-> b.name, ins |-> b.ins, outs |-> b.outs,
-      w |-> Weights(b),
-      c |-> [p \in 1..n |-> cOf(order[p])],
-      x0 |-> [v \in names |-> IF Prod(b, v) # {} THEN 0 ELSE (CHOOSE d \in 1..n : v = X(d))]]
+      prod |-> prod,
+      sccs |-> {{j \in Pos(b) : Mutual(T, i, j)} : i \in Pos(b)},
+      w |-> [p \in Pos(b) |-> [v \in b.ins[p] |->
+               IF \E q \in prod[v] : Mutual(T, q, p) /\ ~(b.id[q] < b.id[p]) THEN 0 ELSE 1]],
+      c |-> [p \in Pos(b) |-> [v \in b.outs[p] |-> 10 * b.id[p] + cst[v]]],
+      x0 |-> [v \in names |-> IF prod[v] # {} THEN 0 ELSE free[v]]]
 
+(* family E: edge i -> j is the private variable v<i>_<j>; optional private input x<d>, output y<d> *)
+MaxD == 5
+VN == [i \in 1..MaxD |-> [j \in 1..MaxD |-> "v" \o ToString(i) \o "_" \o ToString(j)]]
+XN == [i \in 1..MaxD |-> "x" \o ToString(i)]
+YN == [i \in 1..MaxD |-> "y" \o ToString(i)]
+DN == [i \in 1..MaxD |-> "D" \o ToString(i)]
+ENames == {VN[i][j] : i, j \in 1..MaxD} \cup {XN[i] : i \in 1..MaxD} \cup {YN[i] : i \in 1..MaxD}
+ECst == [v \in ENames |-> IF \E i, j \in 1..MaxD : v = VN[i][j]
+                          THEN CHOOSE j \in 1..MaxD : \E i \in 1..MaxD : v = VN[i][j] ELSE 0]
+EFree == [v \in ENames |-> IF \E i \in 1..MaxD : v = XN[i] THEN CHOOSE i \in 1..MaxD : v = XN[i] ELSE 0]
+InstE(n, adj, order, priv, dup) ==
+  LET insOf(d) == {VN[k][d] : k \in {kk \in 1..n : <<kk, d>> \in adj}} \cup (IF priv THEN {XN[d]} ELSE {})
+      outsOf(d) == {VN[d][j] : j \in {jj \in 1..n : <<d, jj>> \in adj}} \cup (IF priv THEN {YN[d]} ELSE {})
+  IN Complete([n |-> n, id |-> order,
+               name |-> [p \in 1..n |-> IF dup THEN "D" ELSE DN[order[p]]],
+               ins |-> [p \in 1..n |-> insOf(order[p])],
+               outs |-> [p \in 1..n |-> outsOf(order[p])]], ECst, EFree)
+
+(* family N: arbitrary input/output name sets over the first UK names *)
 UNames == <<"a", "b", "c", "d">>
 Universe == SubSeq(UNames, 1, UK)
-UIdx(v) == CHOOSE k \in 1..Len(Universe) : Universe[k] = v
+UTab == [v \in ToSet(UNames) |-> CHOOSE k \in 1..Len(UNames) : UNames[k] = v]
 InstN(n, ins, outs) ==
-  LET b == [n |-> n, id |-> [p \in 1..n |-> p],
-            name |-> [p \in 1..n |-> "D" \o ToString(p)],
-            ins |-> ins, outs |-> outs]
-  IN [n |-> b.n, id |-> b.id, name |-> b.name, ins |-> b.ins, outs |-> b.outs,
-      w |-> Weights(b),
-      c |-> [p \in 1..n |-> [v \in outs[p] |-> 10 * p + UIdx(v)]],
-      x0 |-> [v \in Names(b) |-> IF Prod(b, v) # {} THEN 0 ELSE UIdx(v)]]
+  Complete([n |-> n, id |-> [p \in 1..n |-> p], name |-> [p \in 1..n |-> DN[p]], ins |-> ins, outs |-> outs],
+           UTab, UTab)
 
-(* enumeration *)
+(* enumeration: an instance is a number k whose bits are the adjacency matrix (family E) or the    *)
+(* membership of each name in each input/output set (family N); the sample filter is evaluated on  *)
+(* the number, the instance is decoded only when kept                                               *)
 Pairs(n) == (1..n) \X (1..n)
-AdjSets(n) == IF LoopMode = "all" THEN SUBSET Pairs(n) ELSE SUBSET {e \in Pairs(n) : e[1] # e[2]}
+Bit(k, b) == (k \div (2 ^ b)) % 2 = 1
+AdjOf(n, k) == {e \in Pairs(n) : Bit(k, (e[1] - 1) * n + (e[2] - 1))}
+NoLoop(n, k) == \A d \in 1..n : ~Bit(k, (d - 1) * n + (d - 1))
 Perms(n) == {f \in [1..n -> 1..n] : \A i, j \in 1..n : (i # j) => (f[i] # f[j])}
 Rot(n, k) == [p \in 1..n |-> ((p + k - 1) % n) + 1]
 Orders(n) == IF OrderMode = "all" THEN Perms(n)
              ELSE IF OrderMode = "rot" THEN {Rot(n, k) : k \in 0..(n - 1)} ELSE {Rot(n, 0)}
-AdjCode(n, adj) == Sum(adj, [e \in adj |-> Pow2((e[1] - 1) * n + (e[2] - 1))])
-OrdCode(n, order) == Sum(1..n, [p \in 1..n |-> order[p] * Pow2(2 * (p - 1))])
-SelectedE(n, adj, order, priv, dup) ==
-  (SampleMod = 1) \/
-  ((31 * AdjCode(n, adj) + 7 * OrdCode(n, order) + (IF priv THEN 3 ELSE 0) + (IF dup THEN 5 ELSE 0)
-    + SampleKey) % SampleMod = 0)
+OrdCode(n, order) == Sum(1..n, [p \in 1..n |-> order[p] * (4 ^ (p - 1))])
+Sampled(h) == (SampleMod = 1) \/ ((h + SampleKey) % SampleMod = 0)
+KeepE(n, k, oc, priv, dup) ==
+  /\ (LoopMode = "all") \/ NoLoop(n, k)
+  /\ Sampled(31 * k + 7 * oc + (IF priv THEN 3 ELSE 0) + (IF dup THEN 5 ELSE 0))
 U == ToSet(Universe)
-SetCode(S) == Sum(S, [v \in S |-> Pow2(UIdx(v) - 1)])
-NCode(n, ins, outs) ==
-  Sum(1..n, [p \in 1..n |-> (SetCode(ins[p]) + 8 * SetCode(outs[p])) * Pow2(6 * (p - 1))])
-SelectedN(n, ins, outs) ==
-  (SampleMod = 1) \/ ((NCode(n, ins, outs) + SampleKey) % SampleMod = 0)
+InsOf(n, k) == [p \in 1..n |-> {Universe[i] : i \in {i \in 1..UK : Bit(k, (p - 1) * 2 * UK + (i - 1))}}]
+OutsOf(n, k) == [p \in 1..n |-> {Universe[i] : i \in {i \in 1..UK : Bit(k, (p - 1) * 2 * UK + UK + (i - 1))}}]
 
 ---------------------------------------------------------------------------------
 (* The construction of DependencyGraph.get_execution_sequence, step by step *)
@@ -247,7 +254,8 @@ VARIABLES code,    \* the instance as enumerated (constant along a behaviour)
           stages   \* the lists of parallel tasks built so far
 vars == <<code, g, pc, cond, stages>>
 
-Blank == [n |-> 0, id |-> <<>>, name |-> <<>>, ins |-> <<>>, outs |-> <<>>, w |-> <<>>, c |-> <<>>,
+Blank == [n |-> 0, id |-> <<>>, name |-> <<>>, ins |-> <<>>, outs |-> <<>>, prod |-> <<>>, sccs |-> {}, w |-> <<>>,
+          c |-> <<>>,
           x0 |-> <<>>]
 Decode(cd) == IF cd.fam = "E" THEN InstE(cd.n, cd.adj, cd.order, cd.priv, cd.dup)
               ELSE InstN(cd.n, cd.ins, cd.outs)
@@ -255,14 +263,15 @@ Decode(cd) == IF cd.fam = "E" THEN InstE(cd.n, cd.adj, cd.order, cd.priv, cd.dup
 Init ==
   /\ pc = "new" /\ cond = {} /\ stages = <<>> /\ g = Blank
   /\ \/ /\ Fam = "E"
-        /\ \E n \in NMin..NMax : \E adj \in AdjSets(n) : \E order \in Orders(n) :
-           \E priv \in Privs : \E dup \in Dups :
-             /\ SelectedE(n, adj, order, priv, dup)
-             /\ code = [fam |-> "E", n |-> n, adj |-> adj, order |-> order, priv |-> priv, dup |-> dup]
+        /\ \E n \in NMin..NMax : \E order \in Orders(n) : \E priv \in Privs : \E dup \in Dups :
+           LET oc == OrdCode(n, order) IN
+           \E k \in 0..((2 ^ (n * n)) - 1) :
+             /\ KeepE(n, k, oc, priv, dup)
+             /\ code = [fam |-> "E", n |-> n, adj |-> AdjOf(n, k), order |-> order, priv |-> priv, dup |-> dup]
      \/ /\ Fam = "N"
-        /\ \E n \in NMin..NMax : \E ins \in [1..n -> SUBSET U] : \E outs \in [1..n -> SUBSET U] :
-             /\ SelectedN(n, ins, outs)
-             /\ code = [fam |-> "N", n |-> n, ins |-> ins, outs |-> outs]
+        /\ \E n \in NMin..NMax : \E k \in 0..((2 ^ (2 * UK * n)) - 1) :
+             /\ Sampled(k)
+             /\ code = [fam |-> "N", n |-> n, ins |-> InsOf(n, k), outs |-> OutsOf(n, k)]
 
 Build ==                        \* the disciplines are created from the enumerated instance
   /\ pc = "new"
@@ -320,6 +329,7 @@ PeeledGroups == {sk \in GroupAt(stages) : TRUE}
 
 SCCPartition ==                 \* the strongly connected components partition the disciplines
   (pc = "start") =>
+  /\ g.sccs = SCCsOf(g)
   /\ UNION SCCs(g) = Pos(g)
   /\ \A C, D \in SCCs(g) : (C # D) => (C \cap D = {})
   /\ {} \notin SCCs(g)
@@ -347,16 +357,18 @@ CouplingFacts ==
 
 Nilpotent ==                    \* the numeric layer has a unique simultaneous solution, reached from any guess
   (pc = "start" /\ Consistent(g)) =>
-     /\ Step(g, Mono(g)) = Mono(g)
-     /\ Iter(g, OtherGuess(g), g.n + 1) = Mono(g)
-     /\ \A v \in FreeNames(g) : Mono(g)[v] = g.x0[v]
+     LET m == Mono(g) IN
+     /\ Step(g, m) = m
+     /\ Iter(g, OtherGuess(g), g.n + 1) = m
+     /\ \A v \in FreeNames(g) : m[v] = g.x0[v]
 
 CompositionTheorem ==           \* executing any valid schedule reproduces the simultaneous solution
   (pc = "done" /\ Consistent(g)) =>
-     /\ SeqEval(g, stages, g.x0) = Mono(g)
-     /\ SeqEval(g, stages, OtherGuess(g)) = Mono(g)
-     /\ ParEval(g, stages, g.x0) = Mono(g)
-     /\ (AllSingletons(g) => (ChainEval(g, Flatten(stages), g.x0) = Mono(g)))
+     LET m == Mono(g) IN
+     /\ SeqEval(g, stages, g.x0) = m
+     /\ SeqEval(g, stages, OtherGuess(g)) = m
+     /\ ParEval(g, stages, g.x0) = m
+     /\ (AllSingletons(g) => (ChainEval(g, Flatten(stages), g.x0) = m))
 
 InitChainTheorem ==             \* the greedy initialization succeeds exactly on acyclic systems, with a valid order
   (pc = "done") =>
